@@ -169,9 +169,38 @@ class FLock:
         self.f.close()
 
 
+def use_private_coq(pid):
+    """Main-tree runs of different properties used to serialize on one lock around coq/ (a slow proof of one
+    property stalled every other check).  Each property now builds in its own mirror .cache/coq-main/<pid>/:
+    the first sync copies coq/ with its compiled files (after `./check --setup` nothing but <pid>/Properties.vo
+    is rebuilt), later syncs bring over sources only.  VERIF_SHARED_COQ=1 restores the old behaviour."""
+    global COQ
+    if ALT or os.environ.get("VERIF_SHARED_COQ"):
+        return
+    src = os.path.join(ROOT, "coq")
+    mirror = os.path.join(CACHE, "coq-main", pid)
+    first = not os.path.exists(os.path.join(mirror, "_CoqProject"))
+    os.makedirs(mirror, exist_ok=True)
+    cmd = ["rsync", "-a", "--delete", "--exclude", ".lia.cache", "--exclude", ".nia.cache"]
+    if not first:
+        for pat in ("*.vo", "*.vos", "*.vok", "*.glob", ".*.aux", "Makefile", "Makefile.conf", ".Makefile.d", "_CoqProject"):
+            cmd += ["--exclude", pat]
+    with FLock("coq"):          # never copy while `--setup` (or an old-style run) is compiling in coq/
+        subprocess.run(cmd + [src + "/", mirror + "/"], check=True)
+    COQ = mirror
+
+
+def _coq_lock_name():
+    if ALT:
+        return "coq-" + os.path.basename(ALT_DIR)
+    if COQ != os.path.join(ROOT, "coq"):
+        return "coq-main-" + os.path.basename(COQ)
+    return "coq"
+
+
 def coq_make(targets, timeout=1500):
     # VERIF_REPO runs build in their private copy of coq/: they need not queue behind the main tree's lock
-    with FLock("coq" + ("-" + os.path.basename(ALT_DIR) if ALT else "")):
+    with FLock(_coq_lock_name()):
         coq_prepare()
         rc, out, dt = sh(["make", "-j%d" % NCPU] + list(targets), cwd=COQ, timeout=timeout, mem_gb=16)
     return rc, out, dt
